@@ -8,7 +8,7 @@ THOROUGH_CONFIGS = ['dot']
 
 
 MANIFEST = {
-    "text": "Static decision of the byte-conservation mechanisms: the error fallback tables of FilterBodyAction::filter/end (in_error => chunk returned unchanged; an internal error sets in_error and returns the chunk, and bytes held by the stages must be flushed first); Result discipline (no Result of the filter / tokenizer layer is dropped or turned into an Option); token-byte conservation in the HTML filter loop (every token's raw text reaches the output, the active buffer, a visitor or the held-back buffer on every non-error path); flush order at end of stream (buffers oldest first, held-back tail last); the gating tables (content type, content encoding, empty chain) and the agreement of the encoding name tables; insert-only visitors always return their input. Byte-for-byte equality on arbitrary malformed input is not decided.",
+    "text": "Static decision of the byte-conservation mechanisms: the error fallback tables of FilterBodyAction::filter/end (in_error => chunk returned unchanged; an internal error sets in_error and returns the chunk, and bytes held by the stages must be flushed first); Result discipline (no Result of the filter / tokenizer layer is dropped or turned into an Option); token-byte conservation in the HTML filter loop (every token's raw text reaches the output, the active buffer, a visitor or the held-back buffer on every non-error path); flush order at end of stream (buffers oldest first, held-back tail last); the gating tables (content type, content encoding, empty chain) and the agreement of the encoding name tables; insert-only visitors always return their input; the carry-over discipline of the held-back tail between chunks (shared with C03). Byte-for-byte equality on arbitrary malformed input is not decided.",
     "technique": "static analysis: decision tables, dropped-result analysis and def-to-sink must-use over MIR",
 }
 
@@ -343,6 +343,7 @@ def r04_6(ctx):
             r.analysed(f)
             # every Ok return is the content itself or an output string fed only from tokenizer raw/buffered text plus the child
             ok = True
+            why = set()
             n = 0
             for p in Sym(f, copies=True).paths():
                 if p.end[0] != "ret":
@@ -357,7 +358,13 @@ def r04_6(ctx):
                 pushes = [e[2][1] for e in p.events if e[0] == "call" and e[1] == "std::string::String::push_str" and e[2][0] == v]
                 if not all(x == ("param", 2) or mentions(x, lambda y: y[0] == "call" and y[1] in (TOK + "::raw_as_string", TOK + "::buffered_as_string")) for x in pushes) or not pushes:
                     ok = False
-            r.ob("insert-only:%s" % key.rsplit("::", 1)[1], ok and n >= 2, f.site, "the output is assembled from the raw text of every token, the unread remainder and the inserted child only (%d normal returns)" % n)
+                # a return from inside the token loop leaves input unread: the current token and the
+                # unread remainder must both have been appended, the remainder last
+                kinds = ["child" if x == ("param", 2) else "raw" if mentions(x, lambda y: y[0] == "call" and y[1] == TOK + "::raw_as_string") else "rest" if mentions(x, lambda y: y[0] == "call" and y[1] == TOK + "::buffered_as_string") else "?" for x in pushes]
+                if not kinds or kinds[-1] != "rest" or "raw" not in kinds or "child" not in kinds:
+                    ok = False
+                    why.add("an early return assembles %s: the unread remainder of the document must be appended last" % kinds)
+            r.ob("insert-only:%s" % key.rsplit("::", 1)[1], ok and n >= 2, f.site, "the output is assembled from the raw text of every token, the inserted child and, last, the unread remainder (%d normal returns)" % n if ok else "; ".join(sorted(why)) or "output fed from something else than token text / child / remainder")
     ctx.run_rule("R04.6", "insert-only visitors keep their input", body, floor=6)
 
 
@@ -368,3 +375,5 @@ def run(ctx):
     r04_4(ctx)
     r04_5(ctx)
     r04_6(ctx)
+    from .c03 import r03_1
+    r03_1(ctx, rid="R04.7")
